@@ -71,6 +71,7 @@ type Flow struct {
 	window   int
 	n        int
 	free     bool
+	chunks   []int // chunk count per message (kind p2pch); nil = chunking off
 	prodName string
 	prod     *actor.PID
 	pctl     *actor.PID
@@ -91,6 +92,7 @@ type Flow struct {
 	raw     []*Envelope // tells captured and not yet classified
 	stepOut []abs       // abstract sends of the current step in program order
 	begun   map[string]any
+	closed  bool   // free-running: the flow is over, late hooks are ignored
 	curW    string // free-running: worker the WP controller's current message concerns
 }
 
@@ -208,7 +210,12 @@ func (f *Flow) abstract(msg any, c *Consumer, fromCC bool) abs {
 		return a
 	case *commands.SequencedMessage:
 		a := abs{"t": "Seq", "seq": m.Seq(), "id": idNum(m.MessageID())}
-		if !f.sessOK(m.SessionID()) || m.Chunked() {
+		if f.chunks != nil {
+			a["ch"], a["first"], a["last"] = m.Chunked(), m.FirstChunk(), m.LastChunk()
+		} else if m.Chunked() {
+			return bad(a)
+		}
+		if !f.sessOK(m.SessionID()) {
 			return bad(a)
 		}
 		return a
@@ -220,12 +227,16 @@ func (f *Flow) abstract(msg any, c *Consumer, fromCC bool) abs {
 		return abs{"t": "DConf", "id": idNum(m.MessageID()), "seq": m.Seq()}
 	case *actor.Delivery:
 		id := idNum(m.MessageID())
-		if s, ok := m.Payload().(*wrapperspb.StringValue); !ok || s.GetValue() != m.MessageID() {
+		if s, ok := m.Payload().(*wrapperspb.StringValue); !ok || s.GetValue() != f.payloadFor(idNum(m.MessageID())) {
 			id = -2 // payload does not belong to the message id
 		}
 		return abs{"t": "Delivery", "seq": m.Seq(), "id": id}
 	case *actor.Produced:
-		return abs{"t": "Produced", "tok": f.tokNum(m.Token()), "id": idNum(m.MessageID())}
+		a := abs{"t": "Produced", "tok": f.tokNum(m.Token()), "id": idNum(m.MessageID())}
+		if f.chunks != nil {
+			a["c"] = f.chunkCount(idNum(m.MessageID()))
+		}
+		return a
 	case *actor.StoredAck:
 		return abs{"t": "StoredAck", "tok": f.tokNum(m.Token()), "id": idNum(m.MessageID())}
 	case *actor.Confirmed:
@@ -265,24 +276,60 @@ type wpProjector interface {
 type ticker interface{ VerifTick() any }
 type gapElapser interface{ VerifElapseGapLimit() }
 
-func pairs(seqs []int64, ids []string) []abs {
+func pairs(seqs []int64, ids []string, marks [][3]bool) []abs {
 	out := make([]abs, 0, len(seqs))
 	for i := range seqs {
-		out = append(out, abs{"seq": seqs[i], "id": idNum(ids[i])})
+		e := abs{"seq": seqs[i], "id": idNum(ids[i])}
+		if marks != nil {
+			e["ch"], e["first"], e["last"] = marks[i][0], marks[i][1], marks[i][2]
+		}
+		out = append(out, e)
 	}
 	return out
+}
+
+// chunk mode: message k is encoded into exactly chunks[k-1] chunks of at most 1024 bytes
+const chunkBytes = 1024
+
+func (f *Flow) chunkCount(id int) int {
+	if f.chunks == nil || id < 1 || id > len(f.chunks) {
+		return 1
+	}
+	return f.chunks[id-1]
+}
+
+func (f *Flow) payloadFor(id int) string {
+	name := fmt.Sprintf("m-%d", id)
+	if c := f.chunkCount(id); c > 1 {
+		return name + "|" + strings.Repeat("x", (c-1)*chunkBytes+300)
+	}
+	return name
 }
 
 func (f *Flow) projectPC(s actor.VerifProducerControllerState) abs {
 	c := f.cons[f.order[0]]
 	f.sessOK(s.SessionID)
-	return abs{
-		"cur": s.CurrentSeq, "conf": s.ConfirmedSeq, "unc": pairs(s.UnconfirmedSeqs, s.UnconfirmedIDs),
+	st := abs{
+		"cur": s.CurrentSeq, "conf": s.ConfirmedSeq, "unc": pairs(s.UnconfirmedSeqs, s.UnconfirmedIDs, f.marks(s.UnconfirmedMarks, len(s.UnconfirmedSeqs))),
 		"reg": s.Registered, "nonce": c.nonceNum(s.RegistrationNonce, false), "dem": s.DemandUpTo,
 		"hs": s.Handshake, "tok": f.tokNum(s.Token), "tokCtr": len(f.tokens), "pid": idNum(s.PendingMessageID),
 		"pseq": s.PendingSeq, "lastTok": f.tokNum(s.LastCompletedToken), "lastId": idNum(s.LastCompletedMessageID),
 		"failed": s.Failed,
 	}
+	if f.chunks != nil {
+		st["pn"], st["span"] = s.PendingChunks, s.WindowSpan
+	}
+	return st
+}
+
+func (f *Flow) marks(m [][3]bool, n int) [][3]bool {
+	if f.chunks == nil {
+		return nil
+	}
+	if m == nil {
+		m = make([][3]bool, n)
+	}
+	return m
 }
 
 func (f *Flow) projectCC(c *Consumer, s actor.VerifConsumerControllerState) abs {
@@ -293,12 +340,16 @@ func (f *Flow) projectCC(c *Consumer, s actor.VerifConsumerControllerState) abs 
 			sess = 2
 		}
 	}
-	return abs{
+	st := abs{
 		"res": s.Resolved, "sess": sess, "nonce": c.nonceNum(s.RegistrationNonce, false), "nonceCtr": len(c.nonces),
-		"exp": s.ExpectedSeq, "conf": s.ConfirmedSeq, "upTo": s.RequestUpToSeq, "buf": pairs(s.BufferSeqs, s.BufferIDs),
+		"exp": s.ExpectedSeq, "conf": s.ConfirmedSeq, "upTo": s.RequestUpToSeq, "buf": pairs(s.BufferSeqs, s.BufferIDs, f.marks(s.BufferMarks, len(s.BufferSeqs))),
 		"inf": abs{"seq": s.InFlightSeq, "id": idNum(s.InFlightID)}, "saw": s.SawValidTraffic, "gapLim": s.GapLimited,
 		"failed": s.Failed,
 	}
+	if f.chunks != nil {
+		st["runLast"] = s.RunLastSeq
+	}
+	return st
 }
 
 func (f *Flow) consumerByCtl(pid *actor.PID) *Consumer {
@@ -310,9 +361,11 @@ func (f *Flow) consumerByCtl(pid *actor.PID) *Consumer {
 	return nil
 }
 
+// consumerByEP finds the consumer whose endpoint actor is pid (by name: the hooks may see
+// the endpoint before Spawn has returned it to the driver).
 func (f *Flow) consumerByEP(pid *actor.PID) *Consumer {
 	for _, c := range f.cons {
-		if c.ep != nil && c.ep.Equals(pid) {
+		if (c.ep != nil && c.ep.Equals(pid)) || pid.Name() == c.epName {
 			return c
 		}
 	}
@@ -439,7 +492,7 @@ func (p *producerEndpoint) Receive(rc *actor.ReceiveContext) {
 			reply = f.lastProduced // the grant was retried: idempotent resend
 		} else if f.produced < f.n {
 			id := fmt.Sprintf("m-%d", f.produced+1)
-			produced, err := actor.NewProduced(m, id, wrapperspb.String(id))
+			produced, err := actor.NewProduced(m, id, wrapperspb.String(f.payloadFor(f.produced+1)))
 			if err != nil {
 				f.mu.Unlock()
 				f.note("NewProduced: " + err.Error())
@@ -533,8 +586,16 @@ func (f *Flow) endpointReply(rc *actor.ReceiveContext, c *Consumer, msg any) {
 
 // ---------------------------------------------------------------- flow set-up
 
+var chunkPattern []int // VERIF_CHUNKS, kind p2pch
+
 func (h *Harness) newFlow(kind string, window, n int, free bool) *Flow {
 	h.flows++
+	defer func() {
+		if kind == "p2pch" {
+			h.cur.kind = "p2p"
+			h.cur.chunks = chunkPattern
+		}
+	}()
 	f := &Flow{h: h, id: h.flows, kind: kind, window: window, n: n, free: free, cons: map[string]*Consumer{},
 		tokens: map[string]int{}, dconf: map[int]int{}, begun: map[string]any{}}
 	f.prodName = fmt.Sprintf("prod-%d", f.id)
@@ -560,6 +621,9 @@ func (f *Flow) spawnProducer(retry time.Duration) error {
 	var opt actor.SpawnOption
 	if f.kind == "wp" {
 		opt = actor.AsReliableWorkPullingProducer(actor.WithReliableRetryInterval(retry), actor.WithReliableDeliveryConfirmation())
+	} else if f.chunks != nil {
+		opt = actor.AsReliableProducer(f.cons[f.order[0]].epName, actor.WithReliableRetryInterval(retry), actor.WithReliableDeliveryConfirmation(),
+			actor.WithReliableChunking(chunkBytes))
 	} else {
 		opt = actor.AsReliableProducer(f.cons[f.order[0]].epName, actor.WithReliableRetryInterval(retry), actor.WithReliableDeliveryConfirmation())
 	}
